@@ -1,9 +1,12 @@
 #!/bin/sh
-# build the model driver from the extracted code (ocaml/gen/model.ml written by coq/Extract.v)
+# build a model driver from extracted code:  build.sh [suffix]
+#   ocaml/gen/model<suffix>.ml (written by coq/Extract*.v) + ocaml/driver<suffix>.ml -> ocaml/model_driver<suffix>
 set -e
 cd "$(dirname "$0")"
-mkdir -p _build
-cp gen/model.ml gen/model.mli driver_ext.ml driver.ml _build/
-cd _build
-ocamlfind ocamlopt -O2 -w -a -o ../model_driver model.mli model.ml driver_ext.ml driver.ml 2>/dev/null || \
-ocamlfind ocamlopt -w -a -o ../model_driver model.mli model.ml driver_ext.ml driver.ml
+S="$1"
+B="_build$S"
+mkdir -p "$B"
+cp "gen/model$S.ml" "gen/model$S.mli" "driver$S.ml" "$B/"
+cd "$B"
+ocamlfind ocamlopt -O2 -w -a -o "../model_driver$S" "model$S.mli" "model$S.ml" "driver$S.ml" 2>/dev/null || \
+ocamlfind ocamlopt -w -a -o "../model_driver$S" "model$S.mli" "model$S.ml" "driver$S.ml"
